@@ -142,10 +142,11 @@ func (w *treeWorld) attach(kinds []string) {
 	if len(ps) == 0 || len(w.nodes) >= 9 {
 		return
 	}
-	p := kv.Pick(w.r, ps)
-	kind := kv.Pick(w.r, kinds)
+	w.attachAs(kv.Pick(w.r, ps), kv.Pick(w.r, kinds), kv.Pick(w.r, treeFilters()))
+}
+
+func (w *treeWorld) attachAs(p *tnode, kind string, ft kv.Term) {
 	n := &tnode{id: len(w.nodes), kind: kind, parent: p.id}
-	ft := kv.Pick(w.r, treeFilters())
 	fsx := "nil"
 	var err error
 	switch kind {
@@ -293,8 +294,10 @@ func (w *treeWorld) refilter() {
 	if len(cs) == 0 {
 		return
 	}
-	n := kv.Pick(w.r, cs)
-	ft := kv.Pick(w.r, treeFilters())
+	w.refilterAs(kv.Pick(w.r, cs), kv.Pick(w.r, treeFilters()))
+}
+
+func (w *treeWorld) refilterAs(n *tnode, ft kv.Term) {
 	w.tr.line(kv.L("refilter", fmt.Sprint(n.id), ft.Sx()))
 	n.refil(ft.Build())
 	w.tr.stats["act:refilter"]++
@@ -405,15 +408,24 @@ func runTreeScenario(t *testing.T, tr *tracer, idx int, seed uint64, mode string
 		w := &treeWorld{tr: tr, r: r, srv: kv.NewServer(), perturb: r.Chance(2, 3), mode: mode}
 		w.ctx, w.cancel = context.WithCancel(context.Background())
 		tr.line(kv.L("scenario", fmt.Sprint(idx), mode))
-		for i := r.Intn(4); i > 0; i-- {
-			w.srvEvent()
+		if mode == "c07" {
+			for b, k := range treeKeys {
+				if idx&(1<<b) != 0 {
+					o := w.srv.Apply(watch.Added, kv.Obj{Kind: "pod", NS: k[0], Name: k[1], Labels: treeLabels[(idx/16+b)%len(treeLabels)]})
+					tr.line(kv.L("srv", "create", o.Sx()))
+				}
+			}
+		} else {
+			for i := r.Intn(4); i > 0; i-- {
+				w.srvEvent()
+			}
 		}
-		gated := r.Chance(1, 2)
+		gated := r.Chance(1, 2) && mode != "c07"
 		if gated {
 			w.srv.ListGate = make(chan struct{})
 		}
 		rootF := kv.Term{Op: "null"}
-		if r.Chance(1, 3) {
+		if r.Chance(1, 3) && mode != "c07" {
 			rootF = kv.Pick(r, treeFilters())
 		}
 		b := kcache.NewBuilder().Context(w.ctx).Log(&kv.Log{Hook: w.hook}).Filter(rootF.Build()).Client(w.srv)
@@ -444,6 +456,30 @@ func runTreeScenario(t *testing.T, tr *tracer, idx int, seed uint64, mode string
 			})
 		}
 		steps := 8 + r.Intn(14)
+		if mode == "c07" {
+			// exhaustive family: contents x (f1, f2, f3); every filtered kind, Refilter at quiescence
+			fs := treeFilters()
+			f1, f2 := fs[(idx/16)%len(fs)], fs[(idx/(16*len(fs)))%len(fs)]
+			f3 := f1
+			if (idx/(16*len(fs)*len(fs)))%2 == 1 {
+				f3 = fs[(idx/(32*len(fs)*len(fs)))%len(fs)]
+			}
+			rootN := w.nodes[0]
+			w.step(func() { w.attachAs(rootN, "subf", f1) })
+			w.step(func() { w.attachAs(rootN, "clonef", f1) })
+			w.step(func() { w.attachAs(w.nodes[2], "sub", f1) })
+			w.step(func() { w.attachAs(rootN, "subd", f1) })
+			w.step(func() { w.refilterAs(w.nodes[4], f1) })
+			for _, f := range []kv.Term{f2, f3, f2} {
+				for _, id := range []int{1, 2, 4} {
+					w.step(func() { w.refilterAs(w.nodes[id], f) })
+				}
+				if r.Chance(1, 3) {
+					w.step(w.srvEvent)
+				}
+			}
+			steps = 0
+		}
 		if mode == "overflow" {
 			// a few consumers, some of them stalled, and a stream several times the buffer size, paced
 			// in floods of at most EventBufsiz/4 events; stalled nodes are closed or released at the end
@@ -530,9 +566,12 @@ func runTreeScenario(t *testing.T, tr *tracer, idx int, seed uint64, mode string
 }
 
 func engineTree(t *testing.T, tr *tracer) {
-	n := 150
+	n := 600
 	if *flagTier == "thorough" {
-		n = 3000
+		n = 12000
+	}
+	if *flagN > 0 {
+		n = *flagN
 	}
 	for i := 0; i < n; i++ {
 		if *flagOnly >= 0 && i != *flagOnly {
